@@ -149,7 +149,7 @@ PROPS["C09"] = dict(timeout=1800,
          "theirs is executed (handler call counter), both listeners keep serving; non-trivial = every case",
     trusted_base=LIFE_TB, assumptions=["RequireAndVerifyClientCert verifies exactly chains to the configured CA that are currently valid (crypto/tls trusted)"])
 
-PROPS["C14"] = dict(race="always", shards=4, timeout=1800,
+PROPS["C14"] = dict(race="always", shards=4, timeout=600,
     env={"GORACE": "log_path=$VERIF/run/racelog halt_on_error=0 exitcode=0", "VH_RACE_LOG": "$VERIF/run/racelog"},
     rule="concurrent workloads against a real server (loopback TCP) built with -race: 2..32 clients x 30..90 rounds mixing one request of every command family "
          "(strings, counters, keys, hashes, lists, sets, sorted sets, connection, unknown, ill-formed) with CONFIG SET/GET (incl. requirepass), AUTH, SELECT, connection churn, "
